@@ -324,6 +324,13 @@ func miniEval(fn *ssa.Function, args map[*ssa.Parameter]mv, env miniEnv) (miniOu
 				vals[x] = mv{k: mvOpaque}
 			case *ssa.Slice:
 				if opaquePtr[x.X] {
+					// []T{}: a slice of a fresh array of length 0 is the empty result
+					if al, ok := x.X.(*ssa.Alloc); ok {
+						if arr, ok := al.Type().(*types.Pointer).Elem().Underlying().(*types.Array); ok && arr.Len() == 0 {
+							vals[x] = mv{k: mvSub}
+							continue
+						}
+					}
 					vals[x] = mv{k: mvOpaque}
 					continue
 				}
